@@ -504,10 +504,18 @@ func TestPropLanguageTable(t *testing.T) {
 		}
 		// derived languages map to their primary entry
 		if !strings.Contains(string(l), "-") {
-			d := language.Language(string(l) + "-zzzz")
-			got, ok := language.NewLangID(d)
-			if ok && got.Language().Primary() != l {
-				ev.Fail(t, "langtable", map[string]any{"id": int(id), "lang": string(d)}, "NewLangID(%q) = %q, not derived from the same primary", d, got.Language())
+			// (documented: "Derived languages not exactly supported are mapped to their primary
+			// part : for instance, 'fr-be' is mapped to 'fr'"); the suffixes sort before, among and
+			// after real subtags
+			for _, suffix := range []string{"-zzzz", "-aa", "-0", "-za"} {
+				d := language.Language(string(l) + suffix)
+				if exact, isExact := language.NewLangID(d); isExact && exact.Language() == d {
+					continue // an entry of its own
+				}
+				got, ok := language.NewLangID(d)
+				if !ok || got != id {
+					ev.Fail(t, "langtable", map[string]any{"id": int(id), "lang": string(d)}, "NewLangID(%q) = %d (%q), %v; the derived language must map to its primary part %q (%d)", d, got, got.Language(), ok, l, id)
+				}
 			}
 		}
 		if n%97 == 0 {
